@@ -140,8 +140,10 @@ func genC01(seed int64, tier string) *Scenario {
 		o["IgnoreFileOrDirError"] = []string{[]string{"d1/", "f2.lua", "f.*", "*bad"}[r.Intn(4)]}
 		sc.InitOpts = o
 	}
+	wsFolders := map[string]bool{}
 	if r.Intn(6) == 0 {
-		sc.Folders = []string{Root + "/d0", Root + "/nosuchdir"}
+		sc.Folders = []string{Root + "/d0", Root + "/nosuch"}
+		wsFolders["d0"], wsFolders["nosuch"] = true, true
 	}
 	sc.FirstCfg = r.Intn(2) == 0
 	faulty := r.Intn(3) == 0
@@ -304,13 +306,17 @@ func genC01(seed int64, tier string) *Scenario {
 			}
 			sc.Ops = append(sc.Ops, Op{Kind: "config", Params: json.RawMessage(cfg), Async: async})
 		case k < 37:
+			// workspace folders: a conformant client only removes folders it added and never adds one
+			// twice
 			ev := map[string]interface{}{"added": []interface{}{}, "removed": []interface{}{}}
-			d := []string{"d0", "d1", "d2", "nosuch", ""}[r.Intn(5)]
+			d := []string{"d0", "d1", "d2", "nosuch"}[r.Intn(4)]
 			f := map[string]interface{}{"uri": "file://" + Root + "/" + d, "name": d}
-			if r.Intn(2) == 0 {
-				ev["added"] = []interface{}{f}
-			} else {
+			if wsFolders[d] {
 				ev["removed"] = []interface{}{f}
+				delete(wsFolders, d)
+			} else {
+				ev["added"] = []interface{}{f}
+				wsFolders[d] = true
 			}
 			b, _ := json.Marshal(ev)
 			sc.Ops = append(sc.Ops, Op{Kind: "folders", Params: b, Async: async})
